@@ -643,21 +643,50 @@ func TestCheck(t *testing.T) {
 		"a denial is final: once denied the answer is access_denied even if an approval is also on record",
 		"unguessable is decided by its deterministic stand-in: codes are a function of the crypto/rand stream (same seed same codes, other seed other codes)")
 
+	// replay: run only the part the file belongs to (RunE2 decodes the case as an operation
+	// list before it looks at the part name, which fails on an E1 case object)
+	only := ""
+	if c.ReplayFile != "" {
+		var raw json.RawMessage
+		only, _ = c.LoadReplay(&raw)
+	}
+	want := func(part string) bool { return only == "" || only == part }
+
 	for router := 0; router < 2; router++ {
+		if !want("hist-" + rig.Routers[router]) {
+			continue
+		}
 		p := &part{c: c, router: router,
 			daClients: engine.Pick(c, []string{"web", "pub", "norefresh", "ghost"}, []string{"web", "pub", "webjwt", "norefresh", "ghost", "web-nocred"}),
 			maxFlows:  2, users: []string{"u1", "u2"},
-			near: c.Thorough(), slow: c.Thorough(), extraWho: c.Thorough()}
+			near: c.Thorough(), slow: true, extraWho: c.Thorough()}
 		engine.RunE2(c, engine.E2[S]{
 			Part:      "hist-" + rig.Routers[router],
 			Init:      S{St: refstore.NewState()},
 			Ops:       p.ops,
 			NewStep:   p.newStep,
 			Canon:     canon,
-			MaxDepth:  engine.Pick(c, 8, 11),
+			MaxDepth:  engine.Pick(c, 10, 12),
 			MaxStates: 600000,
 		})
 	}
-	runFormat(c)
-	runSeeds(c)
+	if c.Thorough() {
+		// three concurrent flows (no clock-splitting operations, two initiating clients)
+		for router := 0; router < 2; router++ {
+			if !want("hist3-" + rig.Routers[router]) {
+				continue
+			}
+			p := &part{c: c, router: router, daClients: []string{"web", "pub", "norefresh"}, maxFlows: 3, users: []string{"u1", "u2"}}
+			engine.RunE2(c, engine.E2[S]{
+				Part: "hist3-" + rig.Routers[router], Init: S{St: refstore.NewState()},
+				Ops: p.ops, NewStep: p.newStep, Canon: canon, MaxDepth: 14, MaxStates: 600000,
+			})
+		}
+	}
+	if want("format") {
+		runFormat(c)
+	}
+	if want("seeds") {
+		runSeeds(c)
+	}
 }
